@@ -89,3 +89,26 @@ Theorem C02_methods F kv x r : kv = x :: r ->
   aggregate F Min kv = Some (fold_left (fun mn v => if f_lt F v mn then v else mn) kv x).
 Proof. exact (aggregate_methods F kv x r). Qed.
 Print Assumptions C02_methods.
+
+(** ** the meaning of the known-fraction test for the float operations the code uses (the execution
+    instance [flocq_fops]: IEEE binary32 from Flocq).  [f_frac_lt k n xff] is exactly
+    round32(k / n) < xff over the reals (k known of n finer slots, n below 2^24, xff finite), hence
+    rounding never rejects a fraction that is at least xFilesFactor: a coarser slot is left
+    unstored only if the true fraction of known finer slots is below xFilesFactor.
+    (These two theorems mention Flocq's reals and depend on the standard library's real-number
+    axioms, as Print Assumptions shows; everything above is closed under the global context.) *)
+From Coq Require Import Reals.
+From Flocq Require Import Core.Core IEEE754.BinarySingleNaN IEEE754.Binary IEEE754.Bits.
+From WT Require Import Inst.FloatInst Proofs.FracProofs.
+Theorem C02_known_fraction_test_meaning k n xff :
+  0 <= k <= n -> 0 < n < 2^24 -> is_finite 24 128 (b32_of_bits xff) = true ->
+  (f_frac_lt flocq_fops k n xff = true <->
+   (round radix2 (SpecFloat.fexp 24 128) ZnearestE (IZR k / IZR n) < B2R 24 128 (b32_of_bits xff))%R).
+Proof. exact (fl_frac_lt_spec k n xff). Qed.
+Print Assumptions C02_known_fraction_test_meaning.
+
+Theorem C02_fraction_at_least_xff_is_stored k n xff :
+  0 <= k <= n -> 0 < n < 2^24 -> is_finite 24 128 (b32_of_bits xff) = true ->
+  (B2R 24 128 (b32_of_bits xff) <= IZR k / IZR n)%R -> f_frac_lt flocq_fops k n xff = false.
+Proof. exact (fraction_at_least_xff_is_stored k n xff). Qed.
+Print Assumptions C02_fraction_at_least_xff_is_stored.
